@@ -241,6 +241,17 @@ def r_leg_link(ck: Checker) -> None:
     dt = ck.repo.func(LNODE, f"{CLS}.detach")
     loops = [st for st in dt.node.body if isinstance(st, ast.For) and norm(st.iter) == "self.get_child_nodes()"]
     what = "detach clears the parent triple of every child, detaches the subtree unless only_self, and pops the registry entry"
+    if not loops:
+        # a positive pattern: the parent link is cleared for every descendant, not only for the children of the detached node
+        deep = [st for st in dt.node.body if isinstance(st, ast.For) and isinstance(st.iter, ast.Call) and isinstance(st.iter.func, ast.Attribute)
+                and st.iter.func.attr in ("dfs", "bfs") and norm(st.iter.func.value) == "self" and isinstance(st.target, ast.Name)]
+        for lp_ in deep:
+            tv_ = lp_.target.id
+            clears = [st_ for st_ in lp_.body if isinstance(st_, ast.Expr) and norm(st_.value) == f"{tv_}._clear_parent()"]
+            if clears:
+                ck.violation("R-LEG-LINK", dt, lp_, what, construct="detach: the parent link of every descendant is cleared (loop over self.dfs/bfs): with only_self the grandchildren, which stay "
+                             "attached below their own parents, report no parent any more")
+                return
     if len(loops) != 1 or not isinstance(loops[0].target, ast.Name):
         raise Unsupported("detach: no single loop over self.get_child_nodes()", dt.node)
     c = loops[0].target.id
